@@ -125,6 +125,10 @@ def run(ctx):
         flush_edges = []
         for bb, sym, tt, ff in bool_switches(f):
             r = render(sym)
+            if not r.endswith("flushing_merges") and not r.endswith("flushing_merges)"):
+                # a local filled from the field (`let from_merge = self.flushing_merges;`)
+                with f.deep():
+                    r = render(f.sym_operand(f.blocks[bb]["term"]["o"]))
             if r.endswith("flushing_merges"):
                 flush_edges.append((bb, tt))
             elif r.endswith("flushing_merges)") and r.startswith("Not("):
